@@ -1,8 +1,9 @@
 """C14 - eq is a NaN-aware, type-strict equivalence on values, containers and pandas."""
 import warnings
 import numpy as np
+import pandas as pd
 from harness.core import Machinery
-from harness.x_eqval import Ids, Heap, realise, project, coarse, fine, is_leaf, items, klass, features, dmap, has_tag, walk
+from harness.x_eqval import Ids, Heap, realise, project, coarse, fine, is_leaf, items, klass, features, dmap, has_tag, walk, _index, _index_leaves
 
 D1, D2, D3, D4 = [737425, 0, 0], [737426, 3600, 0], [737427, 0, 0], [737428, 43200, 0]
 RI2 = [["i", 0], ["i", 1]]
@@ -160,6 +161,162 @@ def s2c_in(ctx, cases):
         if c['want'] == ['T']:
             ctx.note(('s2c-in', repr((c['x'], c['seq']))))
     fnd.flush()
+
+
+# ---------------------------------------------------------------------------------------------
+# objects that change in place: histories call - write - call ...
+# ---------------------------------------------------------------------------------------------
+def apply_write(obj, e, ids):
+    """one in-place write on a real object, as named by the history entry e (MC_EqHist / the random histories)"""
+    op = e['op']
+    if op == 'set':
+        k, v = e['k'] - 1, realise(e['v'], ids)
+        if type(obj) is list:
+            obj[k] = v
+        elif isinstance(obj, dict):
+            obj[sorted(dict.keys(obj))[k]] = v
+        elif isinstance(obj, np.ndarray):
+            obj[np.unravel_index(k, obj.shape)] = v
+        elif isinstance(obj, pd.Series):
+            obj.iloc[k] = v
+        elif isinstance(obj, pd.DataFrame):
+            obj.iloc[k // obj.shape[1], k % obj.shape[1]] = v
+        else:
+            raise Machinery('cannot write into %r' % type(obj))
+    elif op == 'label':
+        old = obj.index if e['axis'] == 0 else obj.columns
+        leaves = _index_leaves(old, ids)
+        leaves[e['k'] - 1] = e['v']
+        if e['axis'] == 0:
+            obj.index = _index(leaves, ids)
+        else:
+            obj.columns = _index(leaves, ids)
+    elif op == 'reinsert':
+        key = sorted(dict.keys(obj))[e['k'] - 1]
+        obj[key] = obj.pop(key)
+    elif op == 'append':
+        obj.append(realise(e['v'], ids))
+    elif op == 'pop':
+        obj.pop()
+    else:
+        raise Machinery('unknown write %r' % (e,))
+
+
+def s2c_hist(ctx, emitted):
+    """every history TLC enumerated (MC_EqHist): the objects are built once, every write is applied to the real object
+    in place and read back (it must project to the descriptor TLC computed), every call is compared with what the
+    statement pins for the descriptors the objects have at that moment"""
+    from pyg_base import eq
+    fnd = Findings(ctx, 's2c-hist')
+    stats = {'histories': 0, 'calls': 0, 'calls_after_a_write': 0, 'pinned_answer_changed_by_a_write': 0, 'writes': {}}
+    for h in emitted:
+        hist = h['hist']
+        ids = Ids()
+        objs = [realise(d, ids) for d in hist[0]['init']]
+        stats['histories'] += 1
+        last, wrote, ops = {}, False, []
+        for e in hist[1:]:
+            if e['op'] == 'eq':
+                x, y = objs[e['i'] - 1], objs[e['j'] - 1]
+                dx, dy = project(x, ids), project(y, ids)
+                got = outcome(eq, x, y)
+                ctx.evals += 1
+                stats['calls'] += 1
+                stats['calls_after_a_write'] += wrote
+                pinned = 'T' if e['ifF'] else 'F' if e['ifT'] else 'free'
+                if last.get((e['i'], e['j']), pinned) != pinned:
+                    stats['pinned_answer_changed_by_a_write'] += 1
+                    ctx.note(('s2c-hist', repr(hist[:len(ops) + 2])))
+                last[(e['i'], e['j'])] = pinned
+                clause = e['ifT'] if got == 'T' else e['ifF'] if got == 'F' else 'not_boolean'
+                if clause != '':
+                    fnd.add(clause, [dx, dy], [short(x), short(y)], {'observed': got, 'history': ops + ['eq(%d,%d)' % (e['i'], e['j'])], 'init': hist[0]['init']}, at=e['at'])
+                ops.append('eq(%d,%d)=%s' % (e['i'], e['j'], got))
+            else:
+                o = objs[e['i'] - 1]
+                apply_write(o, e, ids)
+                wrote = True
+                stats['writes'][e['op']] = stats['writes'].get(e['op'], 0) + 1
+                if project(o, ids) != e['now']:
+                    raise Machinery('write %r: the object reads back as %r, the specification says %r' % (e, project(o, ids), e['now']))
+                ops.append('%s(%s)' % (e['op'], ','.join(str(e[k]) for k in ('i', 'axis', 'k', 'v') if k in e)))
+        ctx.traces += 1
+    fnd.flush()
+    if stats['pinned_answer_changed_by_a_write'] == 0 or len(stats['writes']) < 5:
+        raise Machinery('vacuous: the histories never change a pinned answer / miss a kind of write: %r' % stats)
+    ctx.extra['c14_s2c_histories'] = stats
+    ctx.sample({'s2c_history': emitted[len(emitted) // 2]})
+
+
+def random_histories(ctx, nhist):
+    """C2S: seeded random histories on random mutable values and a copy of each (sometimes a third object, sometimes two
+    views into one buffer): call - write - call - ..., a write often repeated on the other object so that the two become
+    equal again.  Every call is logged with the descriptors the two objects project to AT THAT MOMENT."""
+    from pyg_base import eq
+    g = Gen(ctx.rng)
+    lines, meta = [], []
+    pool = {'int64': lambda: I(ctx.rng.choice([0, 1, 2, 7])), 'float64': lambda: ctx.rng.choice([Fl(0), Fl(1), Fl(7), Fl(5, 2), NaN(0)]),
+            'bool': lambda: ["b", ctx.rng.choice([0, 1])]}
+    made = 0
+    while made < nhist:
+        if ctx.rng.random() < 0.15:
+            ds = g.view_family()[:2]
+            if ds[0][0] != 'v':
+                continue
+        else:
+            d = g.value(ctx.rng.choice([1, 2, 3]))
+            if d[0] not in ('l', 'm', 'mo', 'M', 'Mo', 'a', 'S', 'F') or len(items(d)) == 0 or (d[0] in ('a', 'S', 'F') and d[1][0] not in ('int64', 'float64', 'bool', 'object')):
+                continue
+            ds = [d, d] + ([d] if ctx.rng.random() < 0.2 else [])
+        heap = Heap()
+        idss = [Ids(heap) for _ in ds]
+        objs = [realise(d, ids) for d, ids in zip(ds, idss)]
+        made += 1
+        pending = None
+        for step in range(ctx.rng.choice([3, 5, 5, 7])):
+            if step % 2 == 0:
+                i, j = ctx.rng.sample(range(len(objs)), 2)
+                dx, dy = project(objs[i], idss[i]), project(objs[j], idss[j])
+                lines.append({'op': 'call', 'h': made, 'step': step, 'x': renumber(dx, 10000), 'y': renumber(dy, 20000), 'out': outcome(eq, objs[i], objs[j])})
+                meta.append((short(objs[i]), short(objs[j])))
+                continue
+            if pending is not None and ctx.rng.random() < 0.6:
+                i, e = pending                                # the same write on another object: equal again
+                pending = None
+            else:
+                i = ctx.rng.randrange(len(objs))
+                now = project(objs[i], idss[i])
+                k = now[0]
+                kinds = {'l': ['set', 'append', 'pop'], 'm': ['set', 'reinsert'], 'mo': ['set', 'reinsert'], 'M': ['set', 'reinsert'], 'Mo': ['set', 'reinsert'],
+                         'a': ['set'], 'v': ['set'], 'S': ['set', 'label'], 'F': ['set', 'label']}.get(k, [])
+                n = len(items(now))
+                kinds = [op for op in kinds if n > 0 or op == 'append']
+                if not kinds:
+                    break
+                op = ctx.rng.choice(kinds)
+                dt = now[1][0] if k in ('a', 'S', 'F', 'v') else 'object'
+                val = pool[dt]() if dt in pool else g.value(1) if k in ('l', 'm', 'mo', 'M', 'Mo') else g.leaf()
+                e = {'op': op}
+                if op in ('set', 'reinsert'):
+                    e['k'] = ctx.rng.randrange(n) + 1
+                if op in ('set', 'append'):
+                    e['v'] = val
+                if op == 'label':
+                    axis = 0 if k == 'S' or not now[1][2] or ctx.rng.random() < 0.5 else 1
+                    if not now[1][1 if axis == 0 else 2]:
+                        break
+                    e.update(axis=axis, k=ctx.rng.randrange(len(now[1][1 if axis == 0 else 2])) + 1, v=ctx.rng.choice([I(5), Str("z"), Fl(5, 2)]))
+                pending = ((i + 1) % len(objs), e)
+            try:
+                with warnings.catch_warnings():
+                    warnings.simplefilter('ignore')
+                    apply_write(objs[i], e, idss[i])
+            except Machinery:
+                raise
+            except Exception:
+                break                                         # the other object has no such item (any more) / refuses the value
+    ctx.evals += len(lines)
+    return lines, meta
 
 
 # ---------------------------------------------------------------------------------------------
@@ -420,18 +577,23 @@ class Gen(object):
         offs = [o for o in range(-min(pos), len(bc) - max(pos)) if o != off]
         return ["v", [dt, buf, bc, self.rng.choice(offs), sh, st]] if offs else None
 
-    def missing(self, d):
-        """the same value with one missing-value marker held as an object (None / NaN / NaT) replaced by another marker"""
-        spots = [n for n in walk(d) if n[0] in ('n', 'nan', 'nat')]
-        if not spots:
-            return None
-        target = self.rng.choice(spots)
-        new = self.rng.choice([m for m in (NONE, NaN(self.nanid()), NAT) if m[0] != target[0]])
-        done = [False]
+    def spots(self, d, boxed=True, top=True):
+        """(node, held as an object?, top level?) for every node of d that can be rewritten (not inside views)"""
+        yield d, boxed, top
+        k, p = d[0], d[1]
+        if k in ('t', 'l'): kids, b = p, True
+        elif k in ('m', 'M', 'mo', 'Mo'): kids, b = items(d), True
+        elif k in ('a', 'S'): kids, b = p[2], p[0] == 'object'
+        elif k == 'F': kids, b = p[3], p[0] == 'object'
+        else: kids, b = [], True
+        for x in kids:
+            for y in self.spots(x, b, False):
+                yield y
 
+    def rewrite(self, d, target, new):
+        """d with the node `target` (an object of the descriptor tree) replaced by `new`"""
         def go(x):
-            if x is target and not done[0]:
-                done[0] = True
+            if x is target:
                 return new
             k, p = x[0], x[1]
             kv = lambda kvs: [[kk, go(y)] for kk, y in kvs]
@@ -440,11 +602,61 @@ class Gen(object):
             if k == 'M': return [k, [p[0], kv(p[1])]]
             if k == 'mo': return [k, [p[0], kv(p[1])]]
             if k == 'Mo': return [k, [p[0], p[1], kv(p[2])]]
-            if k in ('a', 'S') and p[0] == 'object': return [k, [p[0], p[1], [go(y) for y in p[2]]]]
-            if k == 'F' and p[0] == 'object': return [k, [p[0], p[1], p[2], [go(y) for y in p[3]]]]
+            if k in ('a', 'S'): return [k, [p[0], p[1], [go(y) for y in p[2]]]]
+            if k == 'F': return [k, [p[0], p[1], p[2], [go(y) for y in p[3]]]]
             return x
-        out = go(d)
-        return out if done[0] and out != d else None
+        return go(d)
+
+    def missing(self, d):
+        """the same value with one missing-value marker held as an object (None / NaN / NaT) replaced by another marker"""
+        cand = [n for n, boxed, top in self.spots(d) if boxed and n[0] in ('n', 'nan', 'nat')]
+        if not cand:
+            return None
+        target = self.rng.choice(cand)
+        return self.rewrite(d, target, self.rng.choice([m for m in (NONE, NaN(self.nanid()), NAT) if m[0] != target[0]]))
+
+    def nudged(self, c):
+        """a float that is close to the finite float c but not equal: inside the default tolerances of np.allclose /
+        np.isclose / pandas.testing (rtol 1e-5, atol 1e-8) and exactly representable"""
+        from fractions import Fraction
+        p, q = c[1]
+        if p == 0:
+            return Fl(1, 2 ** 27)
+        if abs(p) >= 10000:
+            return Fl(p + 1, q) if q == 1 else None
+        f = Fraction(p, q) * (1 + Fraction(1, 2 ** 17))
+        return Fl(f.numerator, f.denominator)
+
+    def near(self, d):
+        """the same value with one finite float - a leaf, a cell of a float array / Series / frame, a numpy scalar - nudged"""
+        cand = []
+        for n, boxed, top in self.spots(d):
+            leaf = n[1][1] if n[0] == 'np' and n[1][0] in ('float64', 'float32') else n
+            if leaf[0] == 'f' and self.nudged(leaf) is not None:
+                cand.append((n, leaf))
+        if not cand:
+            return None
+        n, leaf = self.rng.choice(cand)
+        return self.rewrite(d, n, self.nudged(leaf) if n is leaf else ['np', [n[1][0], self.nudged(leaf)]])
+
+    def lenient(self, d):
+        """the same value with one item below the top level replaced by something Python's == / numpy's broadcasting
+        calls equal to it although the container type differs: dict <-> dict subclass, a number <-> a 0-d or
+        one-cell array holding it, list <-> tuple stays to `other`"""
+        def twin(n):
+            if n[0] == 'm': return ["M", [self.rng.choice(["Dict", "dictattr"]), n[1]]]
+            if n[0] == 'M': return ["m", n[1][1]]
+            if n[0] == 'mo': return ["Mo", ["Dict", n[1][0], n[1][1]]]
+            if n[0] in ('i', 'f', 'b'):
+                return A({'i': 'int64', 'f': 'float64', 'b': 'bool'}[n[0]], self.rng.choice([(), (1,), (1, 1)]), n)
+            if n[0] == 'a' and len(n[1][2]) == 1 and n[1][0] in ('int64', 'float64', 'bool'):
+                return n[1][2][0] if n[1][2][0][0] != 'nan' else NaN(self.nanid())
+            return None
+        cand = [n for n, boxed, top in self.spots(d) if boxed and not top and twin(n) is not None]
+        if not cand:
+            return None
+        target = self.rng.choice(cand)
+        return self.rewrite(d, target, twin(target))
 
     def variants(self, d):
         """values that are close to d: another container type, another shape / dtype / index, one
@@ -548,8 +760,9 @@ def nontrivial(d):
 def universe(ctx, base, nrandom):
     """descriptors of the universe: TLC's abstract universe and realisation variants, the hand-picked corners, seeded
     random nestings, variants of them (near values and other realisations of the same value: every dict re-ordered at
-    every depth, views at another offset of the shared buffer, another missing-value marker) and families of views into
-    one buffer; without duplicates (copies are added by the caller).  Returns the descriptors, for each the number of
+    every depth, views at another offset of the shared buffer, another missing-value marker, one float nudged inside
+    numpy's default tolerances, one nested item replaced by a ==-equal item of another container type) and families of
+    views into one buffer; without duplicates (copies are added by the caller).  Returns the descriptors, for each the number of
     realisations wanted beyond the first (0: the universe holds other realisations / look-alikes of it anyway), and the
     pairs (i, j) of descriptors that were made as two realisations of one value or as look-alikes, for the in_ calls."""
     g = Gen(ctx.rng)
@@ -569,7 +782,7 @@ def universe(ctx, base, nrandom):
             continue
         d = g.value(ctx.rng.choice([1, 2, 2, 3, 4]))
         rnd.append(d)
-        for r in (g.reorder(d), g.rehouse(d), g.missing(d)):
+        for r in (g.reorder(d), g.rehouse(d), g.missing(d), g.near(d), g.lenient(d)):
             if r is not None:
                 rnd.append(r)
                 twins.append((repr(d), repr(r)))
@@ -624,7 +837,7 @@ def renumber(d, base):
     return dmap(d, nan=lambda k: k + base if k else 0)
 
 
-def c2s(ctx, base, nrandom, nin, descs=None):
+def c2s(ctx, base, nrandom, nin, descs=None, nhist=0):
     from pyg_base import eq, in_
     descs, more, twins = (descs, None, []) if descs is not None else universe(ctx, base, nrandom)
     vals, logged, keep, origin = build(descs, more, deep=not ctx.quick)
@@ -652,13 +865,16 @@ def c2s(ctx, base, nrandom, nin, descs=None):
         ins.append({'op': 'in', 'i': i + 1, 'seq': [j + 1 for j in seq], 'out': outcome(in_, vals[i], [vals[j] for j in seq])})
     obs += ins
     ctx.evals += len(ins)
+    calls, calls_meta = random_histories(ctx, nhist) if nhist else ([], [])
+    first_call = len(obs)
+    obs += calls
     # operands afterwards: eq / in_ must not have modified anything
     for k, (v, ids) in enumerate(zip(vals, keep)):
         if renumber(project(v, ids), 10000 * (k + 1)) != logged[k]:
             ctx.violation('operand_changed', case_of('operand_changed', [logged[k]], [short(v)], names=('x',)), {'after': project(v, ids)})
     # (the thorough matrix is one log of > 1 M lines: it needs the heap the thorough tier always had, whatever VERIF_TLC_HEAP says)
     bad = ctx.validate('Trace_Eq', obs, whole=True, **({'heap': '6g'} if len(obs) > 600000 else {}))
-    fnd = Findings(ctx, 'c2s')
+    fnd, hfnd = Findings(ctx, 'c2s'), Findings(ctx, 'c2s-hist')
     for line, verdict in bad:
         o = obs[line - 1]
         verdict, _, at = verdict.partition('@')
@@ -675,6 +891,9 @@ def c2s(ctx, base, nrandom, nin, descs=None):
                 else:
                     fnd.add(clause, [logged[i], logged[j]], [short(vals[i]), short(vals[j])],
                             {'eq(x,y)': o['out'], 'eq(y,x)': obs[1 + n + j * n + i]['out'], 'i,j': [i + 1, j + 1]}, at=at)
+            elif o['op'] == 'call':
+                hfnd.add(clause, [o['x'], o['y']], list(calls_meta[line - 1 - first_call]),
+                         {'eq(x,y)': o['out'], 'history': o['h'], 'step': o['step'], 'earlier_calls_of_the_history': [c['out'] for c in calls if c['h'] == o['h'] and c['step'] < o['step']]}, at=at)
             elif o['op'] == 'in':
                 i = o['i'] - 1
                 seq = [j - 1 for j in o['seq']]
@@ -683,6 +902,14 @@ def c2s(ctx, base, nrandom, nin, descs=None):
             else:
                 raise Machinery('trace specification rejected the layout of the log: line %d %s' % (line, verdict))
     fnd.flush()
+    hfnd.flush()
+    if calls:
+        ctx.extra['c14_c2s_histories'] = {'histories': len({c['h'] for c in calls}), 'calls': len(calls), 'calls_after_a_write': sum(1 for c in calls if c['step'] > 0),
+                                          'answers': {k: sum(1 for c in calls if c['out'] == k) for k in sorted({c['out'] for c in calls})}}
+        for c in calls:
+            if c['step'] > 0 and c['out'] == 'T':
+                ctx.note(('c2s-hist', c['h'], c['step']))
+        ctx.sample({'c2s_call_after_writes': calls[-1]})
     # distinct non-trivial cases: pairs of different objects that eq calls equal, per pair of descriptors
     for i in range(n):
         for j in range(n):
@@ -731,9 +958,14 @@ def run(ctx):
     # shortcuts that look at the realisation instead of the value: each must be refuted on the block of variants
     for inv in (() if ctx.quick else ('RealOrderPinned', 'RealAliasPinned', 'RealMissingPinned')):
         ctx.mc('MC_EqMech', 'MC_EqMech_real_%s.cfg' % inv, must_fail=inv)
+    # objects that change in place: the law is a function of the current values; an identity-keyed memo is refuted
+    ctx.mc('MC_EqHist', 'MC_EqHist_quick.cfg' if ctx.quick else 'MC_EqHist_thorough.cfg')
+    if not ctx.quick:
+        ctx.mc('MC_EqHist', 'MC_EqHist_memo.cfg', must_fail='MemoAdmitted')
     base = s2c(ctx, ctx.generate('MC_Eq', 'MC_Eq_gen1.cfg' if ctx.quick else 'MC_Eq_gen3.cfg'), 'eq')
     s2c_in(ctx, ctx.generate('MC_Eq', 'MC_Eq_genin.cfg' if ctx.quick else 'MC_Eq_genin_thorough.cfg'))
-    c2s(ctx, base, 50 if ctx.quick else 110, 300 if ctx.quick else 3000)
+    s2c_hist(ctx, ctx.generate('MC_EqHist', 'MC_EqHist_gen3.cfg' if ctx.quick else 'MC_EqHist_gen5.cfg'))
+    c2s(ctx, base, 50 if ctx.quick else 110, 300 if ctx.quick else 3000, nhist=150 if ctx.quick else 1500)
     ctx.exhaustive = False
     ctx.assumptions += [
         'numpy booleans count as booleans (eq returns np.bool_ from np.all)',
